@@ -36,6 +36,7 @@ type Relax struct {
 	LenientNumber bool // number token = maximal run of [0-9+-.eE] accepted when strconv-like lenient form
 	RawControl    bool // raw bytes < 0x20 accepted inside strings
 	BadEscape     bool // any byte accepted after a backslash; \u followed by any 4 bytes
+	ShortU        bool // with BadEscape: \u consumes only itself, what follows are ordinary characters
 	RequireUTF8   bool // (a restriction, not a relaxation) strings must be valid UTF-8
 }
 
@@ -237,6 +238,10 @@ func scanString(b []byte, i int, rx Relax) (int, error) {
 			case '"', '\\', '/', 'b', 'f', 'n', 'r', 't':
 				i += 2
 			case 'u':
+				if rx.BadEscape && rx.ShortU {
+					i += 2 // whatever follows \u is taken as ordinary characters
+					continue
+				}
 				if i+6 > n {
 					return i, &SyntaxError{i, "short \\u escape"}
 				}
